@@ -64,7 +64,7 @@ pub enum Until {
 pub struct Hold {
     /// role of the thread (grevm::verif::role::*, ROLE_MAIN, ROLE_HARNESS+i)
     pub role: u32,
-    /// which thread of that role, in registration order
+    /// which thread of that role, in registration order (255 = any thread of the role)
     pub nth_thread: u8,
     /// point kind (grevm::verif::pt::*)
     pub at: u32,
@@ -833,7 +833,7 @@ impl Controller {
                 g.threads[me].hold_hits.resize(holds.len(), 0);
             }
             for (hi, h) in holds.iter().enumerate() {
-                if !(h.role == role && h.nth_thread == nth_thread && h.at == kind && h.arg.map_or(true, |a| a as usize == arg)) {
+                if !(h.role == role && (h.nth_thread == 255 || h.nth_thread == nth_thread) && h.at == kind && h.arg.map_or(true, |a| a as usize == arg)) {
                     continue;
                 }
                 let cnt = g.threads[me].hold_hits[hi];
